@@ -614,3 +614,115 @@ func TestEncodeLimits(t *testing.T) {
 		}
 	}, checkEncodeLimits, func(c limitCase) bool { return c.Len > 0 })
 }
+
+// ---- one Message value decoding several packets in a row -----------------------------------------------------
+//
+// A Message is a receiver the caller may keep and reuse for the next packet. What it decodes must depend on the
+// packet alone: after decoding packet A, decoding packet B into the same value must give what a new Message gives
+// for B – the structure type the header's code and reply flag designate, the same header, and the same bytes
+// when encoded again. Pairs are biased towards the same command code in the opposite direction, the same
+// structure twice, and an empty-bodied (error) reply after a populated one.
+
+type reuseCase struct {
+	First  msgCase `json:"first_packet"`
+	Second msgCase `json:"second_packet"`
+	// SecondEmpty: the second packet is the bare header of Second plus empty blocks (an error reply)
+	SecondEmpty bool `json:"second_has_empty_blocks,omitempty"`
+}
+
+func wireOf(c msgCase, empty bool) ([]byte, error) {
+	m, err := c.build()
+	if err != nil {
+		return nil, err
+	}
+	wire, err := m.Marshal()
+	if err != nil {
+		return nil, err
+	}
+	if empty {
+		wire = append(append([]byte{}, wire[:32]...), 0, 0, 0)
+	}
+	return wire, nil
+}
+
+func describe(m *message.Message) (typ string, hdr []byte, again []byte, err error) {
+	if m.Command == nil || reflect.ValueOf(m.Command).IsNil() {
+		return "", nil, nil, fmt.Errorf("no command")
+	}
+	typ = reflect.TypeOf(m.Command).Elem().Name()
+	hdr, _ = m.Header.Marshal()
+	defer func() {
+		if r := recover(); r != nil {
+			err = fmt.Errorf("panic: %v", r)
+		}
+	}()
+	again, err = m.Marshal()
+	return
+}
+
+func checkMessageReuse(c reuseCase) []vf.Finding {
+	w1, err1 := wireOf(c.First, false)
+	w2, err2 := wireOf(c.Second, c.SecondEmpty)
+	if err1 != nil || err2 != nil {
+		return nil // not encodable: reported by framing
+	}
+	fresh := message.NewMessage()
+	if err := safeUnmarshal(fresh, append([]byte{}, w2...)); err != nil {
+		return nil // the second packet does not decode on its own: reported by framing / dispatch
+	}
+	reused := message.NewMessage()
+	safeUnmarshal(reused, append([]byte{}, w1...)) // outcome irrelevant: it only leaves state behind
+	subject := c.Second.Struct
+	if err := safeUnmarshal(reused, append([]byte{}, w2...)); err != nil {
+		return []vf.Finding{vf.F(subject, "reused-message-rejects-packet-a-new-one-accepts", "after a %s packet: %v", c.First.Struct, err)}
+	}
+	ft, fh, fa, ferr := describe(fresh)
+	rt, rh, ra, rerr := describe(reused)
+	var fs []vf.Finding
+	if ft != rt {
+		fs = append(fs, vf.F(subject, "reused-message-decodes-to-another-structure", "after a %s packet the %s packet (code %#x, reply %v) decodes as %s, a new Message gives %s", c.First.Struct, c.Second.Struct, w2[4], w2[9]&0x80 != 0, rt, ft))
+		return fs
+	}
+	if !bytes.Equal(fh, rh) {
+		fs = append(fs, vf.F(subject, "reused-message-header-differs", "%x vs %x", rh, fh))
+	}
+	if (ferr == nil) != (rerr == nil) || (ferr == nil && !bytes.Equal(fa, ra)) {
+		fs = append(fs, vf.F(subject, "reused-message-reencodes-differently", "after a %s packet: %d bytes (err %v), a new Message gives %d bytes (err %v)", c.First.Struct, len(ra), rerr, len(fa), ferr))
+	}
+	return fs
+}
+
+func TestMessageReuse(t *testing.T) {
+	s := vf.Begin(t, P, "message-receiver-reuse")
+	counterpart := map[string]string{}
+	for _, e := range smbgen.Inventory() {
+		for _, o := range smbgen.Inventory() {
+			if o.Code == e.Code && o.Response != e.Response {
+				counterpart[e.Name] = o.Name
+			}
+		}
+	}
+	fill := func(t *rapid.T, name string) msgCase {
+		e, _ := smbgen.ByName(name)
+		cmd := smbgen.New(e)
+		rapid.Bool().Draw(t, "_")
+		smbgen.Fill(t, cmd, smbgen.Options{MaxBytes: 24})
+		return msgCase{genHdr(t), name, smbgen.Snapshot(cmd), 0}
+	}
+	vf.Rapid(s, vf.N(114*12, 114*300), func(t *rapid.T) reuseCase {
+		first := genMsg(t, 24)
+		var second msgCase
+		switch k := rapid.IntRange(0, 5).Draw(t, "pairing"); {
+		case k <= 2 && counterpart[first.Struct] != "":
+			second = fill(t, counterpart[first.Struct])
+			s.Class("same code, other direction")
+		case k == 3:
+			second = fill(t, first.Struct)
+			s.Class("same structure twice")
+		default:
+			second = genMsg(t, 24)
+			s.Class("unrelated structures")
+		}
+		return reuseCase{first, second, rapid.IntRange(0, 5).Draw(t, "emptySecond") == 0}
+	}, checkMessageReuse, func(c reuseCase) bool { return len(c.First.Fields) > 0 })
+}
